@@ -40,7 +40,10 @@ from .scheduler import OptimizationStrategy
 from .tensor import MemArea
 from .tensor import MemType
 from .tensor import Tensor
+from .tensor import TensorAddressMap
+from .tensor import create_equivalence_id
 from .utils import progress_print
+from .weight_compressor import CompressedWeightCache
 
 
 class CompilerOptions:
@@ -155,7 +158,16 @@ def _check_schedule(nng, arch, scheduler_options):
             )
 
 
+def reset_process_wide_state():
+    """Forget everything a previous compilation in this process left behind"""
+    CompressedWeightCache.cache.clear()
+    create_equivalence_id.cache_clear()
+    TensorAddressMap.clear_address_map()
+    DebugDatabase.clean_db()
+
+
 def compiler_driver(nng, arch, options, scheduler_options, network_type, output_basename, subgraph_output = False):
+    reset_process_wide_state()
     assert verify_graph_health(nng)
     verbose_progress = scheduler_options.verbose_progress
 
